@@ -144,6 +144,41 @@ Definition status_nodes (b : backend) (s : kspace) (app entry : bytes) : list by
   let sk := status_key app entry in
   map (fun kw => key_node (fst kw)) (filter (fun kw => under b sk (fst kw)) s).
 
+(* ---- processing markers (store/*/processing.go): deployments in flight ----
+   CreateProcessing files a counter under Join("/processing", app, entry, node, ident);
+   doLoadProcessing(app, entry) sums, per node (second-to-last key element), the counters under
+   Join("/processing", app, entry) + "/"; GetDeployStatus adds them to the deployed counts. *)
+Definition processing_prefix : bytes := s2l "/processing".
+Record proc := mkProc { p_app : bytes; p_entry : bytes; p_node : bytes; p_ident : bytes; p_count : N }.
+Definition proc_key (p : proc) : bytes :=
+  join_path [processing_prefix; p_app p; p_entry p; p_node p; p_ident p].
+Definition proc_filter_key (app entry : bytes) : bytes := join_path [processing_prefix; app; entry] ++ [slash].
+Definition pspace := list (bytes * proc).
+Fixpoint has_pkey (k : bytes) (s : pspace) : bool :=
+  match s with [] => false | (k', _) :: t => bytes_eqb k k' || has_pkey k t end.
+(* Create: the key must be new *)
+Definition add_proc (s : pspace) (p : proc) : pspace * bool :=
+  let k := proc_key p in if has_pkey k s then (s, false) else (s ++ [(k, p)], true).
+Definition proc_counts (b : backend) (s : pspace) (app entry : bytes) : list (bytes * N) :=
+  let pk := proc_filter_key app entry in
+  map (fun kp => (key_node (fst kp), p_count (snd kp))) (filter (fun kp => under b pk (fst kp)) s).
+
+(* node -> count maps as sorted association lists *)
+Fixpoint add_count (k : bytes) (n : N) (l : list (bytes * N)) : list (bytes * N) :=
+  match l with
+  | [] => [(k, n)]
+  | (k', m) :: t =>
+      if bytes_eqb k k' then (k', (m + n)%N) :: t
+      else if bytes_ltb k k' then (k, n) :: l
+      else (k', m) :: add_count k n t
+  end.
+Definition agg (l : list (bytes * N)) : list (bytes * N) :=
+  fold_right (fun kn acc => add_count (fst kn) (snd kn) acc) [] l.
+
+(* GetDeployStatus: deployed workloads count 1 each, plus the processing counters *)
+Definition deploy_status (b : backend) (ks : kspace) (ps : pspace) (app entry : bytes) : list (bytes * N) :=
+  agg (map (fun n => (n, 1%N)) (status_nodes b ks app entry) ++ proc_counts b ps app entry).
+
 (* ================= correspondence cases: the stores ================= *)
 Record addc := mkAdd { a_app : string; a_entry : string; a_ident : string; a_node : string; a_id : string;
                        a_acc : bool (* observed: DeployOptions.Validate(app, entry) and AddNodeOptions.Validate(node) return nil *);
@@ -155,7 +190,20 @@ Inductive query :=
 | QStream (app entry node : string) (acc : bool) (obs : list string).           (* etcd: ids reported by WorkloadStatusStream after every
                                                                                    workload's status was set once; sorted *)
 
-Record case := mkCase { c_backend : backend; c_adds : list addc; c_queries : list query }.
+Record procc := mkPc { pc_app : string; pc_entry : string; pc_node : string; pc_ident : string; pc_count : N;
+                        pc_acc : bool (* observed: names pass DeployOptions / AddNodeOptions .Validate *);
+                        pc_ok : bool  (* observed: CreateProcessing returned nil *) }.
+Definition proc_of (p : procc) : proc :=
+  mkProc (s2l (pc_app p)) (s2l (pc_entry p)) (s2l (pc_node p)) (s2l (pc_ident p)) (pc_count p).
+
+Record case := mkCase { c_backend : backend; c_adds : list addc; c_procs : list procc; c_queries : list query }.
+
+Fixpoint build_procs (s : pspace) (ps : list procc) : pspace * list bool :=
+  match ps with
+  | [] => (s, [])
+  | p :: t => let '(s', okb) := add_proc s (proc_of p) in
+              let '(fin, oks) := build_procs s' t in (fin, okb :: oks)
+  end.
 
 Definition wl_of (a : addc) : wl :=
   mkWl (s2l (a_id a)) (make_name (s2l (a_app a)) (s2l (a_entry a)) (s2l (a_ident a))) (s2l (a_node a)).
@@ -199,7 +247,7 @@ Definition accepted_add (a : addc) : bool :=
 Definition accepted_or_empty (valid : bytes -> bool) (n : string) : bool :=
   match s2l n with [] => true | l => valid l end.
 
-Definition query_agrees (b : backend) (s : kspace) (q : query) : bool :=
+Definition query_agrees (b : backend) (s : kspace) (ps : pspace) (q : query) : bool :=
   match q with
   | QList app entry node acc obs =>
       Bool.eqb acc (accepted_or_empty valid_app app && accepted_or_empty valid_entry entry && accepted_or_empty valid_node node)
@@ -209,7 +257,7 @@ Definition query_agrees (b : backend) (s : kspace) (q : query) : bool :=
          end
   | QStatus app entry acc obs =>
       Bool.eqb acc (valid_app (s2l app) && valid_entry (s2l entry))
-      && counts_eqb (count_runs (sort_bytes (status_nodes b s (s2l app) (s2l entry)))) obs
+      && counts_eqb (deploy_status b s ps (s2l app) (s2l entry)) obs
   | QStream app entry node acc obs =>
       Bool.eqb acc (accepted_or_empty valid_app app && accepted_or_empty valid_entry entry && accepted_or_empty valid_node node)
       && bytes_list_eqb (sort_bytes (stream_ids (map snd s) (s2l app) (s2l entry) (s2l node))) (map s2l obs)
@@ -222,11 +270,17 @@ Fixpoint bools_eqb (a b : list bool) : bool :=
   | _, _ => false
   end.
 
+Definition accepted_proc (p : procc) : bool :=
+  valid_app (s2l (pc_app p)) && valid_entry (s2l (pc_entry p)) && valid_node (s2l (pc_node p)).
+
 Definition agree (c : case) : bool :=
   let '(s, oks) := build [] (c_adds c) in
+  let '(ps, poks) := build_procs [] (c_procs c) in
   bools_eqb oks (map a_ok (c_adds c))
+  && bools_eqb poks (map pc_ok (c_procs c))
   && forallb (fun a => Bool.eqb (a_acc a) (accepted_add a)) (c_adds c)
-  && forallb (query_agrees (c_backend c) s) (c_queries c).
+  && forallb (fun p => Bool.eqb (pc_acc p) (accepted_proc p)) (c_procs c)
+  && forallb (query_agrees (c_backend c) s ps) (c_queries c).
 
 (* ---- boolean reflection of the property on the implementation's answers.
    It uses the names only (no keys, no cleaning, no prefixes): a query must return exactly the
@@ -246,7 +300,10 @@ Definition created_under (app entry node : string) (a : addc) : bool :=
          end
   end.
 
-Definition query_ok (adds : list addc) (q : query) : bool :=
+Definition proc_under (app entry : string) (p : procc) : bool :=
+  pc_ok p && String.eqb (pc_app p) app && String.eqb (pc_entry p) entry.
+
+Definition query_ok (adds : list addc) (procs : list procc) (q : query) : bool :=
   match q with
   | QList app entry node acc obs =>
       if acc
@@ -258,8 +315,9 @@ Definition query_ok (adds : list addc) (q : query) : bool :=
       else true
   | QStatus app entry acc obs =>
       if acc
-      then counts_eqb (count_runs (sort_bytes (map (fun a => s2l (a_node a))
-                                   (filter (created_under app entry EmptyString) adds)))) obs
+      then (* deployed workloads of exactly (app, entry), plus the in-flight counters of exactly (app, entry) *)
+           counts_eqb (agg (map (fun a => (s2l (a_node a), 1%N)) (filter (created_under app entry EmptyString) adds)
+                            ++ map (fun p => (s2l (pc_node p), pc_count p)) (filter (proc_under app entry) procs))) obs
       else true
   | QStream app entry node acc obs =>
       if acc
@@ -268,9 +326,11 @@ Definition query_ok (adds : list addc) (q : query) : bool :=
   end.
 
 Definition ok (c : case) : bool :=
-  if forallb a_acc (c_adds c)
-  then (* every workload (distinct ids) under accepted names can be created, and every query is exact *)
-       forallb a_ok (c_adds c) && forallb (query_ok (c_adds c)) (c_queries c)
+  if forallb a_acc (c_adds c) && forallb pc_acc (c_procs c)
+  then (* every workload (distinct ids) and marker (distinct idents) under accepted names can be created,
+          and every query is exact *)
+       forallb a_ok (c_adds c) && forallb pc_ok (c_procs c)
+       && forallb (query_ok (c_adds c) (c_procs c)) (c_queries c)
   else true.
 
 (* ================= stream: names and validation ================= *)
